@@ -20,7 +20,7 @@ class KDRandomRotation(KDStochasticTransform):
         self.degree_ub = self.og_degree_ub = float(self.rotation.degrees[1])
 
     def _scale_strength(self, factor):
-        assert self.og_degree_lb == self.og_degree_ub
+        assert -self.og_degree_lb == self.og_degree_ub
         self.degree_lb = self.og_degree_lb * factor
         self.degree_ub = self.og_degree_ub * factor
 
